@@ -361,6 +361,7 @@ var c12LabPinned = []struct {
 	{"nullunion", `(defs "R" ("R" (struct (field "x" (oneOfStructs "type" ("a" "A") ("b" "B")) false true -))) ("A" (struct (field "type" (const (s "a")) true false -))) ("B" (struct (field "type" (const (s "b")) true false -) (field "n" (int 64 true - -) true false -))))`,
 		[]string{`{"x":{"type":"b","n":1}}`, `{"x":null}`, `{}`}},
 	{"enumsign", `(defs "R" ("R" (struct (field "e" (ref "E") true false -))) ("E" (enumI -1)))`, []string{`{"e":-1}`}},
+	{"bytes", `(defs "R" ("R" (struct (field "b" (array (int 8 false - -)) true false -))))`, []string{`{"b":[1,2]}`, `{"b":[]}`}},
 	{"plain", `(defs "R" ("R" (struct (field "s" (string 1 5 false) true false -) (field "k" (ref "E") false false -) (field "l" (array (int 64 true 0 9)) true false -))) ("E" (enumS "a" "b")))`,
 		[]string{`{"s":"ab","k":"b","l":[1,9]}`, `{"s":"abcde","l":[]}`}},
 }
